@@ -7,7 +7,8 @@ import dataclasses
 import math
 
 from pymbolic.compiler import CompiledExpression
-from pymbolic.primitives import Call, Expression, Variable, expr_dataclass
+from pymbolic.primitives import (Call, CommonSubexpression, Expression, Variable,
+                                 expr_dataclass)
 
 
 class UConst:
@@ -78,6 +79,41 @@ class UDerived(Expression):
         object.__setattr__(self, "label", "lbl" + str(type(self.child).__name__))
 
 
+@expr_dataclass(init=False)
+class UInterval(Expression):
+    """init=False with a hand-written constructor that stores its fields in another order
+    than they are declared in"""
+    lo: object
+    hi: object
+
+    def __init__(self, lo, hi):
+        object.__setattr__(self, "hi", hi)
+        object.__setattr__(self, "lo", lo)
+
+
+@expr_dataclass()
+class UDerivedMid(Expression):
+    """a derived (init=False) field that is not the last one: __post_init__ stores it after
+    the fields that come behind it in the declaration"""
+    child: object
+    label: str = dataclasses.field(init=False)
+    extra: object
+
+    def __post_init__(self):
+        object.__setattr__(self, "label", "mid" + str(type(self.child).__name__))
+
+
+@expr_dataclass()
+class UCse(CommonSubexpression):
+    """decorated subclass of the wrapper node with a field of its own; no mapper has
+    map_u_cse, dispatch falls back to the wrapper's handler"""
+    note: str = "note"
+
+
+class SubCse(CommonSubexpression):
+    """undecorated subclass of the wrapper node that shares its parent's mapper_method"""
+
+
 class SubVariable(Variable):
     """undecorated subclass that does not even set its own mapper_method: it shares
     'map_variable' with its parent"""
@@ -138,10 +174,13 @@ class PureLegacy(Expression):
 
 USER_CLASSES = {"UTag": UTag, "UTag3": UTag3, "UNamed": UNamed, "UHashless": UHashless,
                 "UDerived": UDerived, "SubVariable": SubVariable, "SubCall": SubCall,
-                "UHashInherit": UHashInherit,
+                "UHashInherit": UHashInherit, "UInterval": UInterval,
+                "UDerivedMid": UDerivedMid, "UCse": UCse, "SubCse": SubCse,
                 "LegacyVar": LegacyVar,
                 "LegacyVarX": LegacyVarX, "PureLegacy": PureLegacy}
 USER_FIELDS = {"UTag": ["e", "s"], "UTag3": ["e", "s", "any"], "UNamed": ["s", "ci"],
                "UHashless": ["s", "any"], "UDerived": ["e"], "SubVariable": ["s"],
                "SubCall": ["e", "E0"], "UHashInherit": ["s", "s"],
+               "UInterval": ["e", "any"], "UDerivedMid": ["e", "any"],
+               "UCse": ["e", "px", "sc", "s"], "SubCse": ["e", "px", "sc"],
                "LegacyVar": ["s"], "LegacyVarX": ["s", "any"], "PureLegacy": ["any", "any"]}
